@@ -17,6 +17,7 @@ BASE_TRUSTED = [
 
 
 def main(argv):
+    os.makedirs(os.path.join(common.VERIF, ".run"), exist_ok=True)
     if len(argv) < 3:
         print(__doc__)
         return 2
@@ -78,6 +79,7 @@ def main(argv):
                 mod.search(ctx, broken)
             except Exception:
                 ctx.notes["search_error"] = traceback.format_exc()[-1500:]
+                broken.append({"obligation": "harness: the escalated search crashed", "error": traceback.format_exc()[-600:]})
     finally:
         if ctx._model is not None:
             ctx._model.close()
